@@ -234,7 +234,7 @@ fn run_mini(ctx: &Ctx, prop: &str) -> i32 {
         cfg.fat32 = Some(false);
         cfg.max_spc = 1;
         cfg.two_parts = false;
-        cfg.recipe = Recipe::Small;
+        cfg.recipe = Recipe::Empty;
         cfg.leave_free = None;
         cfg.nops = ctx.arg_u64("ops").unwrap_or(60) as usize;
         cfg.limits = LIMITS[((shard * 7 + i) as usize) % LIMITS.len()];
